@@ -1,6 +1,7 @@
 """C16 — trait-argument fidelity (DESIGN.md §7 C16)."""
 
 import random
+import re
 
 from .. import common as C
 from ..gen_inv import PlanGen
@@ -16,7 +17,11 @@ def d17_shape(plan):
     """a block passes some trait arguments but omits a trailing defaulted one"""
     ngen = len(plan.trait_generics)
     nlt = sum(1 for g in plan.trait_generics if g[0] == "lt")
-    return any(0 < len(f.targs) < ngen for f in plan.families)
+    if any(0 < len(f.targs) < ngen for f in plan.families):
+        return True
+    # … or omits every argument while the trait's where-clause still mentions a defaulted parameter (`trait Kita<P0 = u8> where P0: Clone`)
+    omitted = lambda f: [g[1] for g in plan.trait_generics[len(f.targs):] if g[0] == "ty"]
+    return any(re.search(r"\b" + re.escape(p) + r"\b", plan.trait_where or "") for f in plan.families if len(f.targs) < ngen for p in omitted(f))
 
 
 def d18_shape(plan):
